@@ -76,7 +76,9 @@ PtClauses(c, e) ==
        (IF "FIN" \in g THEN Chk("FIN", e.fin) ELSE {})
   \cup (IF e.fin /\ "EOS" \in g THEN EosClauses(c, e) ELSE {})
   \cup (IF e.fin /\ "PDE" \in g THEN PdeClauses(c, e) ELSE {})
-  \cup (IF e.fin /\ "ADM" \in g THEN AdmPoint(e.v, RowOf(c).vacuum) ELSE {})
+  \cup (IF e.fin /\ "ADM" \in g
+        THEN AdmPoint(e.v, RowOf(c).vacuum) \ (IF c.fam = "RiemannJWL" THEN {"ADM.e>=0"} ELSE {})   \* the JWL energy is relative to a reference state
+        ELSE {})
 
 (* jump laws: flux balances in the frame of the discontinuity + compressive; *)
 (* a contact carries equal pressure and normal velocity and moves with the fluid *)
